@@ -40,6 +40,7 @@ type GenOpts struct {
 	Off              Hazard // input families NOT to generate in this dataset
 	NoEmptyKey       bool   // never draw the empty key name
 	MaxElemLen       int    // >0: every element (and string value) is cut to this many bytes (small snapshots for C04)
+	KeylessOneIn     int    // function libraries / a "lua" aux script appear in one of N eligible datasets (default 8 / 6)
 }
 
 type gen struct {
@@ -719,11 +720,19 @@ func Gen(c *simrt.Chooser, o GenOpts) *Dataset {
 		if g.ver >= 8 {
 			ds.Aux = append(ds.Aux, Aux{[]byte("aof-preamble"), []byte("0")})
 		}
-		if (g.ver == 8 || g.ver == 9) && c.Choose("luaaux", 6) == 0 {
+		luaN := 6
+		if o.KeylessOneIn > 0 {
+			luaN = o.KeylessOneIn
+		}
+		if (g.ver == 8 || g.ver == 9) && c.Choose("luaaux", luaN) == 0 {
 			ds.TailAux = append(ds.TailAux, Aux{[]byte("lua"), []byte("return redis.call('get', KEYS[1])")})
 		}
 	}
-	if g.ver >= 10 && c.Choose("functions", 8) == 0 {
+	fnN := 8
+	if o.KeylessOneIn > 0 {
+		fnN = o.KeylessOneIn
+	}
+	if g.ver >= 10 && c.Choose("functions", fnN) == 0 {
 		for i := 0; i < 1+c.Choose("nfunc", 2); i++ {
 			ds.Functions = append(ds.Functions, []byte(fmt.Sprintf("#!lua name=lib%d\nredis.register_function('fn%d', function(keys, args) return %d end)", i, i, c.Choose("fnret", 100))))
 		}
